@@ -7,7 +7,7 @@
    tag literal, the items of the literal, the gap, and the trailing comment.  [render] is the
    concrete syntax.  This file imports neither Model/ nor Extracted/. *)
 From PGV Require Import Base.Bytes Base.GoStr.
-Open Scope N_scope.
+Local Open Scope N_scope.
 
 Definition BT : byte := 96.      (* '`' *)
 Definition QUOTE : byte := 34.   (* double quote *)
